@@ -156,6 +156,8 @@ def _cfg(rng):
 def gen_stream_like(rng, prop="C15", oracles=None):
     """One parser + one compiler fed k same-shape documents, every result dropped before the next."""
     k = rng.randint(3, 8)
+    if rng.random() < 0.08:
+        k = rng.randint(40, 260)  # a long-lived instance: slow leaks (bounded buffers, thresholds, periodic housekeeping) need many documents
     series = workload.template_series(rng, k)
     shared = rng.random() < 0.6
     parsers = [{"b": "ast", "g": 0}] if shared or rng.random() < 0.5 else [{"b": "astd"}]
